@@ -338,6 +338,31 @@ def run_unit(unit):
                 dl = 100 * np.hypot(xp - xr, ypl - yr) / rp
             exp_max = float(np.nanmax(np.where(rp > 0, dl, np.nan)))
             same(part, 'grid-distortion-maximum', 'GridDistortion', condg, det0, [gd.data['max_distortion']], [exp_max], tol=1e-7)
+        # ---------------- grid distortion at a non-primary wavelength (angular fields): real grid and paraxial scale at THAT wavelength
+        if ft == 'angle' and not has_mirror:
+            wg, ng = 0.4861, 4
+            condg = f'{cond0},wavelength=non-primary'
+            gd = guarded(part, 'grid-distortion', 'GridDistortion', condg, det0, lambda: AN.GridDistortion(o, wavelength=wg, num_points=ng))
+            part.transitions += 1
+            part.evals += 1
+            if gd is not None:
+                ext = np.linspace(-math.sqrt(2) / 2, math.sqrt(2) / 2, ng)
+                HX, HY = np.meshgrid(ext, ext)
+                o.trace_generic(HX.flatten().copy(), HY.flatten().copy(), 0.0, 0.0, wg)
+                same(part, 'grid-distortion-real-points', 'GridDistortion', condg, dict(det0, wavelength=wg), gd.data['xr'],
+                     np.asarray(o.surface_group.x[-1], float).reshape(ng, ng))
+                same(part, 'grid-distortion-real-points', 'GridDistortion', condg, dict(det0, wavelength=wg), gd.data['yr'],
+                     np.asarray(o.surface_group.y[-1], float).reshape(ng, ng))
+                # paraxial chief ray of the library's ray aiming (through the centre of the primary-wavelength entrance pupil),
+                # traced through the indices of the analysed wavelength
+                rows_g = prescription.rows(sp, lambda m, prev: LZ.ref_index(m, wg, prev))
+                th = math.radians(mf)
+                yg, _ = abcd.trace(rows_g, 0.0, math.tan(th), epl)
+                yp = yg[-1] * np.tan(HY * th) / math.tan(th)
+                if abs(yg[-1] - y_par_full) > 1e-4 * max(1.0, abs(y_par_full)):
+                    part.count('grid-distortion:lateral-colour-visible')
+                same(part, 'grid-distortion-predicted-points', 'GridDistortion', condg, dict(det0, wavelength=wg), gd.data['yp'], yp,
+                     tol=1e-5 * max(1.0, abs(yg[-1])))
         # ---------------- field curvature: Coddington along the real chief ray ----------------------------------------------------
         for img_shape in ([None, -45.0, 60.0] if not has_mirror else []):
             npf = 5
@@ -393,6 +418,41 @@ def run_unit(unit):
                 got = pa.data[f'{(fx, fy)}'][f'{0.5876}']
                 same(part, 'pupil-aberration', 'PupilAberration', condp, dict(det0, field=[fx, fy], axis='x'), got['x'], ex, tol=1e-7)
                 same(part, 'pupil-aberration', 'PupilAberration', condp, dict(det0, field=[fx, fy], axis='y'), got['y'], ey, tol=1e-7)
+        # ---------------- pupil aberration with a clipping aperture in front of the stop: each fan masked by ITS OWN vignetting
+        if unit['stop'] >= 1 and not has_mirror:
+            ka = 1                                   # surface carrying the aperture (in front of the stop)
+            ra = 1.02 * abs(ysm[ka - 1]) + 0.25 * abs(ybp[ka - 1]) if pa is not None else None
+            if ra is not None and abs(ybp[ka - 1]) > 0.05 * abs(ysm[ka - 1]) and ra > 1e-3:
+                import copy as _copy
+                sp_a = _copy.deepcopy(sp)
+                sp_a['surfs'][ka - 1]['aperture'] = [float(ra)]
+                o_a = LZ.build(sp_a)
+                part.states += 1
+                condp = cond0 + ',clipping-aperture-before-stop'
+                pa2 = guarded(part, 'pupil-aberration', 'PupilAberration', condp, det0,
+                              lambda: AN.PupilAberration(o_a, fields='all', wavelengths=[0.5876], num_points=9))
+                part.transitions += 1
+                part.evals += 1
+                if pa2 is not None:
+                    Pys9 = np.linspace(-1, 1, 9)
+                    differ = False
+                    for (fx, fy) in lens_f:
+                        o_a.trace(fx, fy, 0.5876, 9, 'line_x')
+                        rx = np.asarray(o_a.surface_group.x[sidx], float).copy()
+                        ix = np.asarray(o_a.surface_group.intensity[sidx], float).copy()
+                        o_a.trace(fx, fy, 0.5876, 9, 'line_y')
+                        ry = np.asarray(o_a.surface_group.y[sidx], float).copy()
+                        iy = np.asarray(o_a.surface_group.intensity[sidx], float).copy()
+                        ex = np.where(ix == 0, np.nan, (Pys9 * dstop - rx) / dstop * 100)
+                        ey = np.where(iy == 0, np.nan, (Pys9 * dstop - ry) / dstop * 100)
+                        differ = differ or not np.array_equal(ix == 0, iy == 0)
+                        got = pa2.data[f'{(fx, fy)}'][f'{0.5876}']
+                        same(part, 'pupil-aberration-vignetted-samples', 'PupilAberration', condp, dict(det0, field=[fx, fy], axis='x', aperture=float(ra)),
+                             got['x'], ex, tol=1e-7)
+                        same(part, 'pupil-aberration-vignetted-samples', 'PupilAberration', condp, dict(det0, field=[fx, fy], axis='y', aperture=float(ra)),
+                             got['y'], ey, tol=1e-7)
+                    if differ:
+                        part.count('pupil-aberration:x-and-y-fans-clipped-differently')
         # ---------------- real-ray and spot-size operands -------------------------------------------------------------------------------
         for k in range(1, len(rows)):
             r = o.trace_generic(0.0, 0.7, 0.3, -0.6, 0.4861)
